@@ -439,6 +439,9 @@ def organize(
     '''
     jobs = {j.tag: j for j in que}
     targets = targets if targets else set()
+    # ask the database before touching any node: if it fails, nothing has
+    # been marked pending that the queue does not know about
+    known = dawgie.db.targets() if '__all__' in targets else []
     log.debug('organize() - looping over targets')
     for tn in task_names:
         for t in dawgie.pl.schedule.ae.at:
@@ -472,7 +475,7 @@ def organize(
                 if _is_asp(n):
                     n.get('todo').add('__all__')
                 elif '__all__' in targets:
-                    n.get('todo').update(dawgie.db.targets())
+                    n.get('todo').update(known)
                 else:
                     n.get('todo').update(targets)
                 # only jobs with pending or executing work belong in the queue
